@@ -500,8 +500,8 @@ func shouldIgnoreTriple(t *triple.Triple, cls *semantic.GraphClause) (bool, erro
 					return true, nil
 				}
 			}
-		} else if cls.OTemporal && cls.OAnchorBinding == "" {
-			// A time bounded predicate in the object position only matches objects that are temporal predicates.
+		} else if cls.OTemporal {
+			// A partially specified temporal predicate in the object position only matches objects that are predicates.
 			return true, nil
 		}
 	}
